@@ -284,7 +284,7 @@ def _one_collection(draw, min_genes=1, tag=""):
 PROP = Prop(
     pid="C17",
     legs=[
-        Leg("tbl", check_tbl, strategy=strat_tbl, n_quick=700, n_thorough=6000, shards_quick=4,
+        Leg("tbl", check_tbl, strategy=strat_tbl, n_quick=450, n_thorough=6000, shards_quick=4,
             must_hit=["5p_partial", "3p_partial_frame", "3p_partial_nostop", "pseudo", "adjacent_cds_merged", "minus_multi_exon", "seed0", "complete_cds", "alt_start", "exported_under_another_hash_seed", "several_sequences_with_genes"],
             rule="1..3 collections (sequences) per table, each with sequence on a whole chromosome, 1..3 genes (1..3 isoforms each; coding with start offsets 0/1/2 and 0-bp-gap CDS blocks, or ncRNA/tRNA/rRNA/misc_RNA/lncRNA), sequences with planted start / stop / in-frame stop codons, x flavour x translation table x locus_tag_jump_size x random_seed (incl. 0) x optional prefix/lab; the text is read by an independent 5-column reader"),
     ],
